@@ -1,7 +1,7 @@
 import XpmVerif.Proofs.Sealed
 /-! C14, part 2: `WF ∧ SealedClosed` is an invariant of the op state machine; sealed nodes are never
     modified (`Frame`). -/
-namespace XpmVerif.Ident
+namespace XpmVerif.Ident.Sealing
 open List
 
 theorem Edge.of_node_eq {g g' : Graph} {x m : Nat} (h : g'.node x = g.node x) (e : Edge g' x m) : Edge g x m := by
@@ -46,10 +46,10 @@ theorem sealed_setNode {g : Graph} {n : Nat} {f : Node → Node} (hf : ∀ nd, (
 theorem node_setNode_ne {g : Graph} {n : Nat} {f : Node → Node} {i : Nat} (h : i ≠ n) : (setNode g n f).node i = g.node i := by
   rw [node_setNode]; simp [h]
 
-theorem inv_setNode {g : Graph} {n : Nat} {f : Node → Node} (hwf : g.WF) (hcl : SealedClosed g)
+theorem inv_setNode {g : Graph} {n : Nat} {f : Node → Node} (hwf : WF g) (hcl : SealedClosed g)
     (hns : (g.node n).sealed = false) (hf : ∀ nd, (f nd).sealed = nd.sealed)
     (hE : ∀ m, Edge (setNode g n f) n m → m < g.size) :
-    (setNode g n f).WF ∧ SealedClosed (setNode g n f) := by
+    WF (setNode g n f) ∧ SealedClosed (setNode g n f) := by
   constructor
   · intro x m e
     rw [size_setNode]
@@ -65,13 +65,13 @@ theorem inv_setNode {g : Graph} {n : Nat} {f : Node → Node} (hwf : g.WF) (hcl 
 
 /-- what the real code guarantees about an accepted operation: a value that is assigned and a pre-task
     that is added are existing configuration objects. -/
-def Op.Valid (size : Nat) : Op → Prop
+def ValidOp (size : Nat) : Op → Prop
   | .set _ _ v => ∀ m ∈ valRefs v, m < size
   | .addPretask _ p => p < size
   | _ => True
 
 /-- the invariant. -/
-def GInv (g : Graph) : Prop := g.WF ∧ SealedClosed g
+def GInv (g : Graph) : Prop := WF g ∧ SealedClosed g
 
 /-- sealed nodes of `g` are literally unchanged in `g'` (and no node is created). -/
 def Frame (g g' : Graph) : Prop := g'.size = g.size ∧ ∀ m, (g.node m).sealed = true → g'.node m = g.node m
@@ -109,7 +109,7 @@ theorem step_size {D : Type} (hc : HC D) (fl : Bool) (s : St D) (o : Op) : (step
   (step_frame hc fl s o).1
 
 /-- **the invariant is preserved by every operation**. -/
-theorem step_inv {D : Type} (hc : HC D) (fl : Bool) (s : St D) (o : Op) (hinv : GInv s.g) (hv : o.Valid s.g.size) :
+theorem step_inv {D : Type} (hc : HC D) (fl : Bool) (s : St D) (o : Op) (hinv : GInv s.g) (hv : ValidOp s.g.size o) :
     GInv (step hc fl s o).1.g := by
   obtain ⟨hwf, hcl⟩ := hinv
   cases o with
@@ -187,7 +187,7 @@ theorem run_frame {D : Type} (hc : HC D) (fl : Bool) : ∀ (os : List Op) (s : S
   | o :: os, s => (step_frame hc fl s o).trans (run_frame hc fl os _)
 
 theorem run_inv {D : Type} (hc : HC D) (fl : Bool) : ∀ (os : List Op) (s : St D), GInv s.g →
-    (∀ o ∈ os, o.Valid s.g.size) → GInv (run hc fl s os).g
+    (∀ o ∈ os, ValidOp s.g.size o) → GInv (run hc fl s os).g
   | [], s, h, _ => h
   | o :: os, s, h, hv => by
     apply run_inv hc fl os _ (step_inv hc fl s o h (hv o mem_cons_self))
@@ -199,4 +199,4 @@ theorem run_inv {D : Type} (hc : HC D) (fl : Bool) : ∀ (os : List Op) (s : St 
 theorem sealedClosed_of_unsealed {g : Graph} (h : ∀ n, (g.node n).sealed = false) : SealedClosed g := by
   intro n m hn; rw [h n] at hn; cases hn
 
-end XpmVerif.Ident
+end XpmVerif.Ident.Sealing
